@@ -12,6 +12,9 @@ LEVEL_TEXT = ("static: decides on every path of the configuration parsers (a) no
               "callback result, (c) that every copy into a fixed-size token buffer is bounded by that buffer, (d) that each resolv.conf directive "
               "writes only its own field and unknown directives write nothing. Does not decide the metamorphic claim over all file contents or numeric ranges."
               " Also decides (KEEP/SPLIT/EMPTY/NUM) replace-after-parse, splitter limits, empty-value handling and numeric validation of options, (LINELOOP) that line loops end only at EOF / out of memory / with a result, (OUTINIT) that structs filled through out-parameters are completely written.")
+# fifth-round additions
+TECHNIQUE += "; " + 'path search from stores through the list out-parameter to silent-ignore exits (R-C15-IGNORED); interval bound at narrowing casts of text conversions (R-C15-PORT)'
+LEVEL_TEXT += " " + '(IGNORED) a silently ignored server entry leaves the collected list as it was; (PORT) a port read from configuration text is bounded by 65535 before it is narrowed to 16 bits.'
 LEVEL_NOTE = ("trusts clang CFG + extractor; callee return sets assume valid (non-NULL) pointer arguments; two 'cannot happen' returns and three "
               "semantic index bounds are frozen exemptions with reasons")
 DESIGN_REF = "DESIGN.md §6/C15"
